@@ -28,12 +28,12 @@ Ctl == {"ctl:0", "ctl:1", "ctl:2", "ctl:3", "ctl:5", "ctl:6"}
 IsMsg(t) == t \notin Ctl
 MsgTags(pk) == {pk[i] : i \in {j \in 1..Len(pk) : IsMsg(pk[j])}}
 
-Cfg0 == [first |-> "polling", final |-> "polling", expectClose |-> FALSE, pi |-> 0, pt |-> 0, slack |-> 0, dead |-> FALSE]
+Cfg0 == [first |-> "polling", final |-> "polling", expectClose |-> FALSE, pi |-> 0, pt |-> 0, slack |-> 0, dead |-> FALSE, mode |-> 0]
 TraceInit == l = 1 /\ sTr = "polling" /\ cTr = "polling" /\ pendUp = {} /\ pendDown = {}
              /\ closedS = "" /\ closedC = "" /\ cfg = Cfg0 /\ hole = 0 /\ beatS = 0 /\ beatC = 0 /\ owed = <<>>
 TReset == /\ IsEvent("reset")
           /\ cfg' = [first |-> Rec.first, final |-> Rec.final, expectClose |-> Rec.expectClose,
-                     pi |-> Rec.pi, pt |-> Rec.pt, slack |-> Rec.slack, dead |-> Rec.dead]
+                     pi |-> Rec.pi, pt |-> Rec.pt, slack |-> Rec.slack, dead |-> Rec.dead, mode |-> 0]
           /\ sTr' = Rec.first /\ cTr' = Rec.first /\ pendUp' = {} /\ pendDown' = {} /\ closedS' = "" /\ closedC' = "" /\ hole' = 0 /\ owed' = <<>>
           /\ beatS' = (IF "t0" \in DOMAIN Rec THEN Rec.t0 ELSE 0) /\ beatC' = (IF "t0" \in DOMAIN Rec THEN Rec.t0 ELSE 0)
 
@@ -76,13 +76,19 @@ TSClose == /\ IsEvent("eio.s.close") /\ cfg.expectClose
 TCClose == /\ IsEvent("eio.c.close") /\ cfg.expectClose
            /\ (Rec.reason = "ping timeout" => cfg.dead /\ hole > 0 /\ InTime(Rec.t, beatC))
            /\ closedC' = Rec.reason /\ UNCHANGED <<sTr, cTr, pendUp, pendDown, closedS>> /\ K
-\* harness: the link was silently black-holed at time t
+\* harness: the link was silently black-holed at time t (mode 1: both directions, 2: client -> server, 3: server -> client)
 THole == /\ IsEvent("proxy.blackhole") /\ hole' = Rec.t
-         /\ UNCHANGED <<sTr, cTr, pendUp, pendDown, closedS, closedC, cfg, beatS, beatC, owed>>
-\* heartbeats received: PONG at the server, PING at the client
+         /\ cfg' = [cfg EXCEPT !.mode = Rec.mode]
+         /\ UNCHANGED <<sTr, cTr, pendUp, pendDown, closedS, closedC, beatS, beatC, owed>>
+\* heartbeats received: PONG at the server, PING at the client.  Nothing crosses a black hole: a heartbeat
+\* "received" later than what was in flight when the hole opened (50 ms) did not come from the peer
+InFlight == 50000
+Crossed(t, blocked) == hole = 0 \/ ~blocked \/ t <= hole + InFlight
 TSPong == /\ IsEvent("eio.s.pong") /\ beatS' = Rec.t
+          /\ Crossed(Rec.t, cfg.mode \in {1, 2})
           /\ UNCHANGED <<sTr, cTr, pendUp, pendDown, closedS, closedC, cfg, hole, beatC, owed>>
 TCPing == /\ IsEvent("eio.c.ping") /\ beatC' = Rec.t
+          /\ Crossed(Rec.t, cfg.mode \in {1, 3})
           /\ UNCHANGED <<sTr, cTr, pendUp, pendDown, closedS, closedC, cfg, hole, beatS, owed>>
 
 TBeat == /\ \/ IsEvent("eio.s.ping") \/ IsEvent("eio.s.pingtimeout")
